@@ -110,6 +110,8 @@ pub fn prop() -> HistProp {
     let mut w = Weights::trading();
     // funding drains: the oracle is set so that the next settlement consumes about half / all / several times a holder's margin
     w.drain = 3;
+    // the engine is paused and resumed in between (liquidations and settlements stay available)
+    w.pause = 2;
     w.ecfg = 2;
     w.vcfg = 2;
     w.rewire = 2;
